@@ -31,7 +31,8 @@ def replay(pid, path):
             lines = det.get("history") or det.get("context")
             p = c.path("replay", "t%d.ndjson" % i)
             open(p, "w").write("\n".join(lines) + "\n")
-            cfg = c.write_cfg(t["comp"], "replay%d" % i, constants=t.get("constants") or None, postcondition="Accepted")
+            cfg = c.write_cfg(t["comp"], "replay%d" % i, constants=t.get("constants") or None, postcondition="Accepted",
+                              constraints=t.get("constraints") or ())
             ok, at, _ = c.validate_trace(t["comp"], t["module"], cfg, p, deque=t.get("deque", False))
             vcheck.log("replay %d: %s -> %s" % (i, v["sig"], "accepted now" if ok else "REJECTED at line %s: %s" % (at, lines[at - 1] if at and at <= len(lines) else "")))
             still += 0 if ok else 1
